@@ -609,7 +609,8 @@ class CphotAng:
             np.radians(self.dtype(1)) if betaE < np.radians(1.0) else betaE
         )
 
-        Eshow = self.dtype(Eshow100PeV * 1e8)  # GeV
+        # (the factor 1e8 overflows a half-precision energy: form the product in double)
+        Eshow = self.dtype(np.float64(Eshow100PeV) * 1e8)  # GeV
 
         ThetView = self.theta_view(betaE)
         sinThetView = np.sin(ThetView, dtype=self.dtype)
